@@ -108,6 +108,9 @@ fn count_history(ctx: &Ctx, s: &CountSampler, prior: u64, hist: &mut Vec<(usize,
             }
         }
         if ok {
+            if hist.len() >= 2 {
+                ctx.sample_tagged("history of run calls (counting chain)", || json!({"input": case.clone(), "transitions_before_last_call": prior, "checked": "shape, row<->chain, entry k = state after prior+n_discard+k+1 transitions, exact transition count"}));
+            }
             ctx.state(hash_of(&(n_chains, dim, hist.clone())));
             if c + d > 0 {
                 ctx.distinct(hash_of(&(n_chains, dim, hist.clone())));
@@ -290,6 +293,7 @@ fn report_cont(ctx: &Ctx, name: &str, r: Result<(Vec<f64>, Vec<f64>, Vec<f64>, V
                 }
             }
             ctx.outcome(&format!("{name}:continuation-checked"), 1);
+            ctx.sample_tagged(&format!("continuation {name}"), || json!({"input": case.clone(), "first_values_of_run(a+b,d)": jfs(&one[..one.len().min(4)])}));
             ctx.distinct(hash_str(&case.to_string()));
         }
     }
@@ -394,8 +398,6 @@ pub fn run(ctx: &Ctx) {
     counting(ctx);
     continuation(ctx);
     nuts_rows(ctx);
-    ctx.sample(json!({"count_history": {"n_chains": 3, "dim": 2, "history": [[2, 1], [0, 3], [1, 0]], "expected_row_0_of_last_run": "chain 0 after 2+1+0+3+0+1 = 7 transitions"}}));
-    ctx.sample(json!({"continuation": {"sampler": "HMC", "a": 2, "b": 1, "d": 3, "n_chains": 3}}));
     if ctx.outcome_count("HMC:continuation-checked") == 0 || ctx.outcome_count("NUTS:rows-checked") == 0 {
         ctx.machinery_error("vacuity guard: HMC / NUTS parts did not run");
     }
